@@ -1,13 +1,25 @@
 """C14 — real interval operations contain every possible exact result."""
 from props import _civ
 import cplx_iv_ops as CI
+import iv_fun_ops as IVF
 
 LEVEL = "proof"
-LEAN_MODULES = ["Props.C14"]
+LEAN_MODULES = ["Props.C14", "Props.C14fun"]
 ASSUMPTIONS = ["containment theorems are for intervals with finite endpoints (add, sub, neg, pos, mul in all sign cases); infinite endpoints, "
                "div, sqrt, pow_int and the conversions are bit-exactly modelled and decided on sample points per case",
-               "transcendental interval functions (exp, log, cos, sin, ...) are not covered by this check yet"]
+               "transcendental interval functions (iv.exp, log, sqrt, sin, cos, tan, cot, sec, csc, mpi_atan, iv.atan2, real ** with non-integer "
+               "exponents) are NOT modelled: the statement 'for all intervals and precisions' is SAMPLED (structured + steered generators, "
+               "precisions 2..200) and every sample point is decided against an enclosure of the verified evaluator (Props/C14fun.lean: "
+               "C14_ref_enclosure, C14_ref_outside, C14_ref_inside, C14_ref_enclosure_pow) in exact integer arithmetic; undecided points are "
+               "counted, never passed; sample points of exp-like functions are limited to |x| < 2^24, of trig functions to |x| < 2^1100",
+               "atan2: the reference combines verified atan enclosures of a dyadic bracket of |y/x| with the verified pi enclosure and quadrant "
+               "logic in Python (exact rational arithmetic; this combination step is not verified); the origin is treated as outside the domain",
+               "iv.gamma / rgamma / loggamma / factorial: no verified evaluator exists; only integer and half-integer points (exact values, "
+               "sqrt(pi) bracketed by the verified sqrt/pi enclosures) and poles are checked -- a NECESSARY condition, not containment",
+               "mpmath's mp context is used only to steer the generators (arguments whose value is within 2^-10 ulp of a grid point, dyadics "
+               "next to k*pi/2), never in a decision"]
 
 
 def run(ctx):
-    return _civ.run_civ(ctx, "C14", CI.INTERVAL_OPS + ["malformed"], 40000, 1500000)
+    res = _civ.run_civ(ctx, "C14", CI.INTERVAL_OPS + ["malformed"], 40000, 1500000)
+    return IVF.merge_into(res, IVF.run_ivfun(ctx, "C14"))
